@@ -443,7 +443,8 @@ class _AbstractSampler(_ABC):
             assert (
                 max_time > 0.0
             ), "The maximal runtime (`max_time`) should be a float larger than zero."
-            self.max_time = max_time
+        # Also reset when None: a re-used sampler must not keep a previous run's limit
+        self.max_time = max_time
 
         self.disable_progressbar = disable_progressbar
 
